@@ -272,6 +272,10 @@ func (r *Run) Finish(minNontrivial int) int {
 	if nviol > 0 {
 		code = 1
 	}
+	if r.Only == "" && len(r.samples) == 0 && nviol == 0 {
+		fmt.Printf("INCONCLUSIVE property=%s the run recorded no sample case\n", r.ID)
+		code = 4
+	}
 	if r.Only == "" && len(r.sigs) < minNontrivial && nviol == 0 {
 		fmt.Printf("INCONCLUSIVE property=%s observed only %d distinct non-trivial cases (floor %d) — the run observed too little\n", r.ID, len(r.sigs), minNontrivial)
 		ev["observed_nothing"] = true
